@@ -94,4 +94,10 @@ CHECKS["C18"] = {
     "note": "FMM through the exact-summation stand-in. 'Configuration' = spaces, wavenumber, assembler, precision and the effective parameter values at construction.",
 }
 
+CHECKS["C14"] = {
+    "technique": "program generator + dense-matrix interpreter with a space-compatibility type checker; systematic (operation x ill-typed reason) sweep then seeded exploration",
+    "text": "Expression trees of depth <= 4 (quick) / 6 (thorough) over a pool of 24 boundary operators, 12 blocked / generalized blocked operators, 18 discrete operators, 10 potential operators, 24 grid functions (primal and dual representation) and 11 scalar types are interpreted against dense NumPy matrices: sums, differences, scalings, negations, products (weak M^-1 weak), transposes/adjoints, to_dense vs matvec/matmat, real-on-complex by parts, A*f projections (blocked: sliced by dual DOF counts), potential algebra; every well-typed program must succeed and match to 1e-10, every ill-typed one (incompatible spaces of equal size on the same or another grid, different sizes, other points) must not yield numbers. 2020 programs quick, 16420 thorough.",
+    "note": "Compatibility semantics follow space.hash / is_compatible as documented; the pool uses the icosahedron because the P1-DP0 mass matrix is singular on octahedron/cube refinements (cond guard 1e3).",
+}
+
 NOT_APPLICABLE = {}
